@@ -240,7 +240,7 @@ pub fn run(ctx: &Ctx) {
          ends completed; distinct = (orientation, schedule).",
     );
     ctx.assume("ECDH keys, salts and signatures come from SystemRandom and differ per run; the only control-flow relevant draw (hash order) is pinned");
-    let depth: usize = ctx.tier.pick(6, 8);
+    let depth: usize = ctx.tier.pick(7, 9);
     // split on canonical prefixes of length 2
     let firsts = [Act::InitA, Act::InitB, Act::TickA, Act::TickB];
     let mut roots: Vec<(bool, Vec<Act>)> = vec![];
@@ -284,7 +284,7 @@ pub fn run(ctx: &Ctx) {
         true,
     );
 
-    let n: u32 = ctx.tier.pick(1_500, 40_000);
+    let n: u32 = ctx.tier.pick(4_000, 60_000);
     ctx.proptest("pt-schedule", n, || (any::<bool>(), proptest::collection::vec(act_strategy(), 0..200)), |(o, acts)| {
         let c = Case { orientation: *o, acts: acts.clone(), liveness: true };
         let out = run_case(ctx, &c);
